@@ -390,27 +390,27 @@ def run_check(prop, tier, replay=None):
     known_lines = []
     broken = []            # descriptions of broken obligations / correspondence
 
-    # ---- 1. build
-    pregen = (lambda: mod.pregen(REPO, COQ)) if hasattr(mod, "pregen") else None
-    pregen_err = None
-    if pregen:
-        def pregen_safe():
-            nonlocal pregen_err
-            try:
-                mod.pregen(REPO, COQ)
-            except Exception as e:
-                pregen_err = "translator aborted: %r" % (e,)
-        ok, blog = build(pregen=pregen_safe)
-    else:
-        ok, blog = build()
-    if pregen_err:
-        broken.append(pregen_err)
+    # ---- 1. build (only what this property needs: its property file and checker modules,
+    #         with their dependencies; ./check --setup builds everything)
     mods = [mod] + [importlib.import_module("props." + m) for m in getattr(mod, "EXTRA", [])]
     all_check_vo = []
     for m_ in mods:
         all_check_vo += list(getattr(m_, "CHECK_VO", []))
     prop_vo = "Properties/%s.v" % prop
     needed = [prop_vo] + all_check_vo
+    targets = [n[:-2] + ".vo" for n in needed]
+    pregen_err = None
+
+    def pregen_safe():
+        nonlocal pregen_err
+        if hasattr(mod, "pregen"):
+            try:
+                mod.pregen(REPO, COQ)
+            except Exception as e:
+                pregen_err = "translator aborted: %r" % (e,)
+    ok, blog = build(targets=targets, pregen=pregen_safe)
+    if pregen_err:
+        broken.append(pregen_err)
     if not ok:
         missing = [n for n in needed if not vo_exists(n)]
         if missing:
